@@ -1,6 +1,7 @@
 package props
 
 import (
+	"encoding/json"
 	"fmt"
 	"reflect"
 	"strings"
@@ -195,6 +196,83 @@ func init() {
 			c04stats.Outcome(fmt.Sprintf("derived-profile:%v", want))
 		}, nil
 	}
+	// a derived profile whose struct tags are spelled in every documented way: a token is accepted exactly when the base
+	// claims are valid and the two claims declared without omitempty are present; what is present is read back exactly
+	Scenarios["c04.derived-profile-tag-spellings"] = func() (choice.Scenario, func() any) {
+		return func(c *choice.Ctx) {
+			a := genValidOpt(&choice.Ctx{}, kindP2, false, true)
+			a.Canon, a.Profile = ExtTagSpellingsName, sp(ExtTagSpellingsName)
+			if c.Choose("base", 2) == 1 {
+				a.ImplID = bp(pat(31, 0x10))
+			}
+			tree := wireTree(a, true)
+			present := [5]bool{}
+			for i := range present {
+				// default: the optional ones absent, the mandatory ones present
+				def := i >= 3
+				present[i] = (c.Choose(fmt.Sprintf("claim-%c", 'A'+i), 2) == 0) == def
+				if present[i] {
+					if i == 4 {
+						tree.Put(mcbor.I(-75504), mcbor.T("e"))
+					} else {
+						tree.Put(mcbor.I(int64(-75500-i)), mcbor.I(int64(10+i)))
+					}
+				}
+			}
+			isJSON := c.Choose("format", 2) == 1
+			want := a.Valid() && present[3] && present[4]
+			tag := fmt.Sprintf("derived-profile-tag-spellings:json=%v:present=%v", isJSON, present)
+			var wire []byte
+			if isJSON {
+				var m map[string]any
+				json.Unmarshal(wireJSON(a), &m)
+				for i, n := range []string{"a", "b", "c", "d"} {
+					if present[i] {
+						m[n] = 10 + i
+					}
+				}
+				if present[4] {
+					m["e"] = "e"
+				}
+				wire, _ = json.Marshal(m)
+			} else {
+				wire = mcbor.Encode(tree)
+			}
+			c04stats.State(wire)
+			var cl psatoken.IClaims
+			var err error
+			if p, v := safely(func() {
+				if isJSON {
+					cl, err = psatoken.DecodeAndValidateClaimsFromJSON(wire)
+				} else {
+					cl, err = psatoken.DecodeAndValidateClaimsFromCBOR(wire)
+				}
+			}); p {
+				c.Failf("C04:panic:"+tag, "%v\n%x", v, wire)
+				return
+			}
+			c04stats.Trans.Add(1)
+			switch {
+			case want && err != nil:
+				c.Failf("C04:rejected:"+tag, "token conforming to the registered derived profile rejected: %v", err)
+			case !want && err == nil:
+				c.Failf("C04:accepted:"+tag, "token lacking a mandatory claim of (or violating the rules of) the registered profile it declares was accepted")
+			case want:
+				x, ok := cl.(*ExtTagSpellingsClaims)
+				if !ok {
+					c.Failf("C04:type:"+tag, "decoded as %T", cl)
+					return
+				}
+				got := [5]bool{x.A != nil, x.B != nil, x.C != nil, x.D != nil, x.E != nil}
+				if got != present || (x.A != nil && *x.A != 10) || (x.B != nil && *x.B != 11) || (x.C != nil && *x.C != 12) || (x.D != nil && *x.D != 13) || (x.E != nil && *x.E != "e") {
+					c.Failf("C04:fidelity:"+tag, "added claims read back as present=%v, wire has %v", got, present)
+				}
+				if gv, ev := getterVector(cl), expectedVector(a); gv != ev {
+					c.Failf("C04:fidelity:"+tag, "getters differ from the wire\n got  %s\n want %s", gv, ev)
+				}
+			}
+		}, nil
+	}
 	// a derived profile that re-declares a base claim (same key) with its own, stricter accessor
 	Scenarios["c04.derived-profile-shadowing"] = func() (choice.Scenario, func() any) {
 		g := newCoarseGen(2, 2)
@@ -253,6 +331,7 @@ func init() {
 			bound = 3
 		}
 		exploreChoice(r, "c04.derived-profile", bound, dl)
+		exploreChoice(r, "c04.derived-profile-tag-spellings", -1, dl)
 		exploreChoice(r, "c04.derived-profile-shadowing", bound, dl)
 		for _, p := range []int{1, 2} {
 			exploreChoiceOpts(r, fmt.Sprintf("c04.after-prior-calls.p%d", p), 2, dl, 1)
